@@ -181,6 +181,14 @@ func reusedNamedStruct(ts spec.TypeSpec) bool {
 	return false
 }
 
+// c15Kept: the schema generated for the previous case's type, as returned, and what it said then.
+var c15Kept struct {
+	lib    avro.Schema
+	want   ref.Schema
+	goType string
+	valid  bool
+}
+
 func runC15(c c15Case) (bool, []string, error) {
 	return runC15With(c, false, func(zero interface{}) (avro.Schema, error) { return avro.SchemaForType(zero) })
 }
@@ -282,6 +290,16 @@ func runC15With(c c15Case, strict bool, schemaForType func(interface{}) (avro.Sc
 			return nt, labels, fmt.Errorf("Schema.Codec refuses the schema generated for its own type: %v", err)
 		}
 		labels = append(labels, "codec_refused")
+	}
+	// a result stays what it was while schemas of other types are generated: the one kept
+	// from the previous case is looked at again now, and this case's is kept for the next
+	if c15Kept.valid {
+		if d := fromLib(c15Kept.lib).Diff(c15Kept.want, ""); d != "" {
+			return nt, labels, fmt.Errorf("the schema generated for the previous type (%s) changed while this type's schema was generated: %s", c15Kept.goType, d)
+		}
+	}
+	if keep, err := schemaForType(zero); err == nil {
+		c15Kept.lib, c15Kept.want, c15Kept.goType, c15Kept.valid = keep, fromLib(keep), c.GoType, true
 	}
 	// deterministic also after the caller has edited the value it was given (a
 	// schema is a plain value; BigQuery users mark columns as timestamps this way)
@@ -425,6 +443,24 @@ func drawC15(t *rapid.T) c15Case {
 			}
 		}
 		c.Type = cat.Get(rapid.SampledFrom(names).Draw(t, "cat")).Spec
+	} else if gen.Uniform(t, "deepChain", 80) == 0 {
+		// structs nested in one another tens or hundreds of levels deep (directly, or
+		// through a pointer, slice or map), nothing self-referential about them
+		depth := []int{20, 33, 40, 64, 130, 300}[gen.Uniform(t, "chainDepth", 6)]
+		inner := spec.Struct(spec.FieldSpec{Go: "Leaf", JSON: "leaf", T: spec.T("int64")})
+		for i := 0; i < depth; i++ {
+			ft := inner
+			switch (i + depth) % 4 {
+			case 1:
+				ft = spec.Ptr(inner)
+			case 2:
+				ft = spec.Slice(inner)
+			case 3:
+				ft = spec.Map(inner)
+			}
+			inner = spec.Struct(spec.FieldSpec{Go: "A", JSON: "a", T: spec.T("string")}, spec.FieldSpec{Go: "N", JSON: fmt.Sprintf("n%d", i), T: ft})
+		}
+		c.Type = inner
 	} else {
 		c.Type = gen.StructType(t, o, 1)
 		seen := false
